@@ -357,6 +357,9 @@ impl System for Sys {
                 let mut pending = vec![];
                 let mut somes = 0;
                 for (i, slot) in self.futs.iter_mut().enumerate() {
+                    if i % 512 == 0 {
+                        crate::core::heartbeat();
+                    }
                     let f = slot.as_mut().unwrap();
                     match lib(|| f.as_mut().poll(&mut Context::from_waker(&waker))) {
                         Err(p) => {
@@ -414,6 +417,8 @@ impl System for Sys {
 // A counter narrower than usize that the implementation keeps next to its queue (a seeded change
 // used a saturating u16 "number of waiters") is exact below its range and wrong above it.
 
+/// wall-clock budget of one script phase
+pub const SCRIPT_WALL_CAP_S: f64 = 20.0;
 /// stack of the script thread
 pub const SCRIPT_STACK: usize = 256 * 1024;
 pub const SCRIPT_SIZES: [usize; 10] = [1, 2, 3, 255, 256, 257, 65535, 65536, 65537, 65538];
@@ -437,7 +442,17 @@ impl Script {
         let variants = if chain { 1 } else { Sys::new(&inner_cfg).variants() };
         for v in 0..variants {
             let mut sys = Sys::new(&inner_cfg);
-            for _ in 0..n {
+            let t0 = std::time::Instant::now();
+            for reg in 0..n {
+                if reg % 512 == 0 {
+                    crate::core::heartbeat();
+                    if t0.elapsed().as_secs_f64() > SCRIPT_WALL_CAP_S {
+                        eprintln!("script {} n={} capped after {} registrations ({} s)", self.cfg.label(), n, reg, SCRIPT_WALL_CAP_S);
+                        out.o(&format!("n={} CAPPED during registration", n));
+                        std::mem::forget(sys);
+                        return;
+                    }
+                }
                 let mut o = StepOut::default();
                 sys.apply(Op::Register, &mut o);
                 if Self::take(o, out) {
@@ -456,8 +471,8 @@ impl Script {
                     }
                 }
             }
-            if !out.viol.is_empty() {
-                // a primitive that misbehaved is not torn down
+            if !out.viol.is_empty() || out.obs.contains("CAPPED") {
+                // a primitive that misbehaved (or whose script was cut short) is not torn down
                 std::mem::forget(sys);
                 return;
             }
@@ -488,7 +503,20 @@ impl Script {
                 return;
             }
         }
+        let t0 = std::time::Instant::now();
         for i in 0..n {
+            if i % 512 == 0 {
+                crate::core::heartbeat();
+                if t0.elapsed().as_secs_f64() > SCRIPT_WALL_CAP_S {
+                    // a slow (say quadratic) but correct implementation is not a violation: the chain
+                    // is cut short and the cut is visible in the observation string / on stderr
+                    eprintln!("chain script with {} parked futures capped after {} steps ({} s)", n, i, SCRIPT_WALL_CAP_S);
+                    out.o(&format!("CAPPED after {} of {} steps", i, n));
+                    let futs: Vec<Option<DynFut>> = std::mem::take(&mut sys.futs);
+                    std::mem::forget(futs);
+                    return;
+                }
+            }
             let w0 = harness::wakes(WAKER);
             let step: Result<Result<(), String>, String> = match &sys.prim {
                 Prim::Sem(s) => lib(|| {
